@@ -81,9 +81,12 @@ def r09_2(ctx):
             gen = g.generators[0]
             var = ast.unparse(gen.target)
             used = None
-            if len(gen.ifs) == 1 and isinstance(gen.ifs[0], ast.Compare) and isinstance(gen.ifs[0].ops[0], ast.NotIn) \
-                    and ast.unparse(gen.ifs[0].left) == var:
-                used = gen.ifs[0].comparators[0]
+            f0, neg = (gen.ifs[0], False) if len(gen.ifs) == 1 else (None, False)
+            while isinstance(f0, ast.UnaryOp) and isinstance(f0.op, ast.Not):
+                f0, neg = f0.operand, not neg
+            if isinstance(f0, ast.Compare) and len(f0.ops) == 1 and ast.unparse(f0.left) == var and \
+                    (isinstance(f0.ops[0], ast.NotIn) and not neg or isinstance(f0.ops[0], ast.In) and neg):
+                used = f0.comparators[0]
             ok = ast.unparse(g.elt) == var and ast.unparse(gen.iter) == 'range(self._processes)' and used is not None
             if ok:
                 udefs = [v for (dn, t, v) in q.assigns(ai, ast.unparse(used))] if isinstance(used, ast.Name) else [used]
